@@ -99,7 +99,7 @@ type c17Step struct {
 	Kind    string         `json:"kind"` // update | reload
 	Jobs    []string       `json:"jobs"` // update: jobs contained; reload: configured jobs afterwards
 	Version int            `json:"version,omitempty"`
-	Sizes   map[string]int `json:"sizes,omitempty"` // per job: number of active targets (dropped = size % 3)
+	Sizes   map[string]int `json:"sizes,omitempty"`    // per job: number of active targets (dropped = size % 3)
 	NoCli   []string       `json:"noClient,omitempty"` // reload: configured jobs whose HTTP client cannot be built this time
 }
 
